@@ -32,6 +32,7 @@ repaired clipboard parser of fixes/C02-clipboard.patch wherever that parser is a
                               (finding `swallow-into-mouse-report`); `sgr_pinned_esc_waits`: and keeps every `ESC x` waiting
 * `sgr_no_junk`               the repaired parser (fixes/C02-sgr-strict.patch, `Cfg.sgrStrict`) consumes exactly the bytes
                               of one SGR report (independent grammar `Spec.SgrGrammar.isSgrReport`), for all buffers;
+                              `sgr_report_recognised` (both variants accept every report), `sgr_strict_exact` (iff);
                               `sgr_strict_delivers`, `sgr_strict_esc_immediate`; every theorem above holds for both
                               variants (`Stable` does not mention the variant; `stable_sgr_variant`, `db_stable_strict`)
 -/
@@ -319,6 +320,32 @@ theorem sgr_no_junk_append (cfg : Cfg) (hs : cfg.sgrStrict = true) (st : PState)
     ∃ r t, b = r ++ t ∧ r.length = n ∧ Tcell.Spec.SgrGrammar.isSgrReport r = true := by
   obtain ⟨hg, hn⟩ := sgr_no_junk cfg hs st b n evs st' h
   exact ⟨b.take n, b.drop n, (List.take_append_drop n b).symm, by simp [List.length_take, Nat.min_eq_left hn], hg⟩
+
+open Tcell.Spec.SgrGrammar in
+/-- **every report is recognised** (both variants): if `r` is an SGR report of the grammar, `parseSgrMouse` completes on
+`r ++ t` for every continuation `t` and removes exactly the `|r|` bytes of the report -/
+theorem sgr_report_recognised (cfg : Cfg) (st : PState) (r t : Bytes) (h : isSgrReport r = true) :
+    ∃ evs st', parseSgrMouse cfg st (r ++ t) = .complete r.length evs st' := by
+  have := sgrRun_of_grammar cfg st t r {} 0 (by simpa [Tcell.Lemmas.SgrStrict.okFrom] using h)
+  simpa [parseSgrMouse] using this
+
+open Tcell.Spec.SgrGrammar in
+/-- **the repaired parser completes exactly on reports**: for every buffer `b` and every `n`, `parseSgrMouse` completes
+removing `n` bytes iff the first `n` bytes of `b` are one SGR report of the grammar -/
+theorem sgr_strict_exact (cfg : Cfg) (hs : cfg.sgrStrict = true) (st : PState) (b : Bytes) (n : Nat) :
+    (∃ evs st', parseSgrMouse cfg st b = .complete n evs st') ↔ (n ≤ b.length ∧ isSgrReport (b.take n) = true) := by
+  constructor
+  · rintro ⟨evs, st', h⟩
+    have := sgr_no_junk cfg hs st b n evs st' h
+    exact ⟨this.2, this.1⟩
+  · rintro ⟨hn, hg⟩
+    have := sgr_report_recognised cfg st (b.take n) (b.drop n) hg
+    rwa [List.take_append_drop, List.length_take, Nat.min_eq_left hn] at this
+
+example : ∃ evs st', parseSgrMouse exStrict {} ([0x9b, 60, 51, 53, 59, 45, 49, 59, 49, 50, 51, 109] ++ [120]) = .complete 12 evs st' :=
+  sgr_report_recognised exStrict {} _ [120] (by decide)
+example : (∃ evs st', parseSgrMouse exStrict {} [27, 91, 60, 48, 59, 53, 59, 53, 77, 120] = .complete 9 evs st') :=
+  (sgr_strict_exact exStrict rfl {} _ 9).mpr (by decide)
 
 -- the hypotheses are satisfiable: a report followed by more input
 example : parseSgrMouse exStrict {} [27, 91, 60, 48, 59, 53, 59, 53, 77, 120, 121] = .complete 9 [.mouse 4 4 1 0] { buttondn := true } := by
